@@ -27,6 +27,7 @@
 #include "cmd_itoa.h"
 #include "cmd_ftoa.h"
 #include "cmd_memcmp.h"
+#include "cmd_xmemcpy.h"
 #include "cmd_merge.h"
 #include "cmd_number.h"
 #include "cmd_ondemand.h"
@@ -67,6 +68,8 @@ int main(int argc, char** argv) {
       vthr::cmd(tok, out);
     } else if (tok[0] == "memcmp") {
       cmd_memcmp(tok, out);
+    } else if (tok[0] == "xmemcpy") {
+      cmd_xmemcpy(tok, out);
     } else if (tok[0] == "quote") {
       cmd_quote(tok, out);
     } else if (tok[0] == "parse" || tok[0] == "parse-seq") {
